@@ -23,6 +23,7 @@ type treeScenario struct {
 	artPath   string
 	invalid   bool
 	twoStages bool
+	foreign   bool
 }
 
 func runTree(o *opts) {
@@ -48,6 +49,7 @@ func runTree(o *opts) {
 			target:  []string{"same", "moved", "clone"}[rr.intn(3)],
 			artPath: []string{"out", "data/out", "a/b/c"}[rr.intn(3)],
 			invalid: rr.chance(1, 12), twoStages: rr.chance(1, 3),
+			foreign: rr.chance(1, 10),
 		}
 		if o.shm == "" && sc.cacheLoc == "xdev" {
 			sc.cacheLoc = "abs"
@@ -96,6 +98,12 @@ func oneTree(o *opts, r *rng, s *summary, i int, sc treeScenario, distinct map[s
 		if sc.invalid {
 			art.set(invalidUtf8Name(r), nFile([]byte("x")))
 		}
+		if sc.foreign {
+			// a link to a live regular file outside the cache is not a file to version
+			ext := filepath.Join(base, "external.bin")
+			must(os.WriteFile(ext, []byte("somebody else's data"), 0o644))
+			art.set("zz_external", &Node{Kind: "lo", Data: []byte(ext)})
+		}
 	}
 	s.count("kind:" + sc.kind)
 	s.count("cache:" + sc.cacheLoc)
@@ -127,6 +135,9 @@ func oneTree(o *opts, r *rng, s *summary, i int, sc treeScenario, distinct map[s
 		if sc.invalid && sc.kind != "file" {
 			t.Info["invalid_utf8_name"] = true
 		}
+		if sc.foreign && sc.kind != "file" {
+			t.Info["link_to_external_regular_file"] = true
+		}
 		ts = append(ts, t)
 		return t
 	}
@@ -135,7 +146,7 @@ func oneTree(o *opts, r *rng, s *summary, i int, sc treeScenario, distinct map[s
 	ref := w.Root.clone()
 	// commit
 	cspecs := want(11, 1, 7, 14, 13)
-	bad := sc.invalid && sc.kind != "file"
+	bad := (sc.invalid || sc.foreign) && sc.kind != "file"
 	if bad {
 		cspecs = want(5, 1, 13)
 	}
